@@ -480,8 +480,8 @@ def check_near(ctx, spec, pairs, batch, key):
         # H: exact spline integration on both sides -> rounding error only
         lhs = T * b['h']['ok'] - t0 * a['h']['ok']
         rhs = si.int_cp(t0, T)
-        tol = 1e-11 * h_scale + 1e-9 * abs(rhs)
-        NEAR_WORST['h'] = max(NEAR_WORST['h'], abs(lhs - rhs) / (1e-11 * h_scale + 1e-9 * abs(rhs) + 1e-300))
+        tol = 1e-12 * h_scale + 1e-9 * abs(rhs)        # measured worst error (thorough tier): 3e-4 of this
+        NEAR_WORST['h'] = max(NEAR_WORST['h'], abs(lhs - rhs) / (tol + 1e-300))
         if abs(lhs - rhs) > tol:
             ctx.violation('next to a special temperature the change of T*(H/RT) is not the integral of Cp/R over the sliver between the two temperatures',
                           inp, expected=rhs, observed=lhs)
@@ -489,10 +489,12 @@ def check_near(ctx, spec, pairs, batch, key):
         lhs = b['s']['ok'] - a['s']['ok']
         rhs = si.int_cp_over_t(t0, T)
         if cls == 'tref' or t0 == tref:
-            tol = 1e-11 * s_scale + 1e-7 * abs(rhs)
+            tol = 1e-12 * s_scale + 1e-7 * abs(rhs)    # measured worst: 2e-4 of this
             NEAR_WORST['s_tref'] = max(NEAR_WORST['s_tref'], abs(lhs - rhs) / (tol + 1e-300))
         else:
-            tol = 1e-5 * (s_scale + 0.1)
+            # two quadratures over long, almost equal intervals: their errors do not cancel exactly (measured worst
+            # 3.3e-8 of the scale over 50 000 pairs in the thorough tier); 30 times that
+            tol = 1e-6 * (s_scale + 0.1)
             NEAR_WORST['s'] = max(NEAR_WORST['s'], abs(lhs - rhs) / tol)
         if abs(lhs - rhs) > tol:
             ctx.violation('next to a special temperature the change of S/R is not the integral of Cp/(R T) over the sliver between the two temperatures',
@@ -770,7 +772,7 @@ def run_inner(ctx):
     H.run(ctx, ctx.n(300, 2500), 12 if not ctx.thorough() else 24)
     batch = []
     grid(ctx, batch, acc, ctx.n(2, 24))
-    near_special(ctx, batch, acc, ctx.n(2, 30))
+    near_special(ctx, batch, acc, ctx.n(2, 12))
     ctx.extra.setdefault('coverage', {})['near_special_worst_error_over_tolerance'] = dict(NEAR_WORST)
     constructor_cases(ctx, batch, ctx.n(120, 2000))
     shipped(ctx, batch, acc, 0 if ctx.thorough() else ctx.n(14, 0))
